@@ -344,6 +344,7 @@ func suiteSched(o *suiteOut, r *rng, tier string, n int) {
 			o.fail("C12", "feeding a program in several Execute calls split at token boundaries equals one call", line+" parts="+fmt.Sprintf("%q", parts), base[:min(len(base), 300)], got[:min(len(got), 300)])
 		}
 		o.emit(line, "skip", true)
+		runsLine(o, 200000, false, parts) // the same history through the Lean model
 		o.count("split executions")
 	}
 	o.notes = append(o.notes, "inputs of every kind (programs incl. eexec sections, CMaps, fonts in four formats and from the independent writer, AFM, PFB) under delivery schedules: one byte at a time, data together with EOF, random chunk sizes around the 512-byte buffer, every two-chunk split position (short inputs) or sampled positions, non-seekable source; programs fed in 2-4 Execute calls split at token boundaries (also inside open procedure bodies); oracle: identical result to the single-read run")
